@@ -36,7 +36,7 @@ CW = 'chainables.courier_worker'
 
 
 def run(ctx: Ctx):
-  for r in (r1, r2, r3, r4, r5, r6, r7, r10, r11, r13):
+  for r in (r1, r2, r3, r4, r5, r6, r7, r10, r11, r13, r14):
     ctx.guard(r)
   from mlmverif.props import c03
   ctx.include('R-C16-9', '"delivers exactly one final aggregate result": the'
@@ -578,11 +578,52 @@ def r13(ctx: Ctx):
   ctx.floor(rule, 2, n)
 
 
+def r14(ctx: Ctx):
+  rule = 'R-C16-14'
+  ctx.rule(rule, '"if fewer shard states arrive than expected the merge reports an error instead of'
+           ' returning a partial aggregate": the guard lives in merge_states(strict_states_cnt=...)'
+           ' (R-C16-1) and is armed only when the caller passes the expected number. Every'
+           ' orchestration function that KNOWS the number of shards it launched (a `num_shards`'
+           ' parameter/local) and merges the states they return must pass it on:'
+           ' `<runner>.merge_states(<states>, strict_states_cnt=<num_shards>)`. Without it the'
+           ' merge of the states that did arrive is delivered as an ordinary final result')
+  repo = ctx.repo
+  n = 0
+  for fi in repo.all_functions():
+    if not fi.module.name.endswith('orchestrate'):
+      continue
+    fns = [fi.node] + [x for x in ast.walk(fi.node) if x is not fi.node and isinstance(x, (ast.FunctionDef, ast.AsyncFunctionDef))]
+    names = {a.arg for a in fi.node.args.args + fi.node.args.kwonlyargs + fi.node.args.posonlyargs} | {
+        t.id for x in ast.walk(fi.node) if isinstance(x, ast.Assign) for t in x.targets if isinstance(t, ast.Name)}
+    knows = 'num_shards' in names
+    for c in ast.walk(fi.node):
+      if isinstance(c, ast.Call) and isinstance(c.func, ast.Attribute) and c.func.attr == 'merge_states':
+        n += 1
+        kw = kwarg(c, 'strict_states_cnt')
+        if kw is None and len(c.args) > 1:
+          kw = c.args[1]
+        if not knows:
+          ctx.info(rule, fi, f'{fi.qualname}: number of producers not known in advance (one state per worker that iterated)')
+          continue
+        if kw is not None and any(isinstance(y, ast.Name) and y.id == 'num_shards' for y in ast.walk(kw)):
+          ctx.ok(rule, fi, f'{fi.qualname}: merge armed with the expected number of states', c)
+        else:
+          ctx.fail(rule, fi, f'{fi.qualname}: merge_states(<shard states>, strict_states_cnt=num_shards)',
+                   f'`{unparse(c)[:70]}` merges the states returned by the shards without the expected number'
+                   ' although the function knows it (`num_shards`): when a shard\'s state does not arrive (the'
+                   ' shard failed, returned something else) the states that did arrive are merged and delivered'
+                   ' as an ordinary final aggregate — a partial result that looks like a complete one', node=c)
+  ctx.floor(rule, 2, n)
+
+
 from mlmverif.selfcheck import B, OK  # noqa: E402
 
 _T = 'chainables/transform.py'
 _O = 'chainables/orchestrate.py'
 VARIANTS = [
+    OK('sharded-merge-armed-with-num-shards', _O,
+       '      merged_state = agg_fn.merge_states(iterate_agg_state())',
+       '      merged_state = agg_fn.merge_states(iterate_agg_state(), strict_states_cnt=num_shards)', count=1),
     B('aggregate-runner-from-last-transform-only', _T,
       '    if not recursive:\n      transforms = [transforms[-1]]\n    agg_only = mode == RunnerMode.AGGREGATE\n    if agg_only:\n      transforms = [t for t in transforms if t.agg_fns]',
       '    agg_only = mode == RunnerMode.AGGREGATE\n    if not recursive or agg_only:\n      transforms = [transforms[-1]]', 'R-C16-13'),
